@@ -428,6 +428,10 @@ class QueryHandler:
             # as we know its reachable from that socket
             self.zc.async_send(out, addr, port, v6_flow_scope, transport)
         if question_answers.mcast_now:
+            # What is multicast now answers every query that is still
+            # waiting for the same records in one of the outgoing queues
+            self.out_queue._remove_answers_from_queue(question_answers.mcast_now)
+            self.out_delay_queue._remove_answers_from_queue(question_answers.mcast_now)
             self.zc.async_send(construct_outgoing_multicast_answers(question_answers.mcast_now))
         if question_answers.mcast_aggregate:
             self.out_queue.async_add(first_packet.now, question_answers.mcast_aggregate)
